@@ -8,6 +8,12 @@
 //	runs transports.Get("obfs4").ServerFactory(D,args) and prints the identity it presents
 //	(Args(): cert, iat-mode).  seed≠0 makes crypto/rand deterministic (fresh identities).
 //
+// {"cmd":"multi","starts":[{"dir":D,"args":{…}}…],"seed":n}
+//
+//	performs the ServerFactory calls one after the other in THIS process (several listeners /
+//	in-process restarts, possibly over several directories) and prints, per call, what it
+//	presents and the contents of its directory right after it.
+//
 // {"cmd":"tickets","dir":D,"ops":[{"op":"store","addr":A,"raw":hex}|{"op":"get","addr":A}]}
 //
 //	runs the ScrambleSuit ClientFactory(D) (ticket-store load), then the ops: store = the
@@ -25,6 +31,7 @@ import (
 	"net"
 	"os"
 	"os/signal"
+	"path/filepath"
 	"reflect"
 	"sort"
 	"syscall"
@@ -51,13 +58,26 @@ type request struct {
 	Args map[string]string `json:"args"`
 	Seed uint64            `json:"seed"`
 	Ops  []ticketOp        `json:"ops"`
+	// Starts: cmd "multi" — ServerFactory calls performed one after the other in THIS process
+	Starts []multiStart `json:"starts,omitempty"`
 	// FsizeLimit, when set, makes every write(2) to a regular file fail (EFBIG) or come up
 	// short beyond that many bytes per file: RLIMIT_FSIZE with SIGXFSZ ignored — the I/O-fault
 	// family of the check (disk full / quota).
 	FsizeLimit *uint64 `json:"fsize_limit,omitempty"`
 }
 
+type multiStart struct {
+	Dir  string            `json:"dir"`
+	Args map[string]string `json:"args,omitempty"`
+}
+
+type multiResult struct {
+	Reply reply             `json:"reply"`
+	Snap  map[string]string `json:"snap"` // the directory after the call: name → hex
+}
+
 type reply struct {
+	Multi []multiResult `json:"multi,omitempty"`
 	OK    bool       `json:"ok"`
 	Err   string     `json:"err,omitempty"`
 	Cert  string     `json:"cert,omitempty"`
@@ -90,6 +110,37 @@ func (c *sinkConn) SetDeadline(time.Time) error      { return nil }
 func (c *sinkConn) SetReadDeadline(time.Time) error  { return nil }
 func (c *sinkConn) SetWriteDeadline(time.Time) error { return nil }
 
+// serverStart: one ServerFactory call and the identity it presents.
+func serverStart(dir string, argMap map[string]string) reply {
+	args := pt.Args{}
+	keys := make([]string, 0, len(argMap))
+	for k := range argMap {
+		keys = append(keys, k)
+	}
+	sort.Strings(keys)
+	for _, k := range keys {
+		args.Add(k, argMap[k])
+	}
+	sf, err := transports.Get("obfs4").ServerFactory(dir, &args)
+	if err != nil {
+		return reply{Err: err.Error()}
+	}
+	a := sf.Args()
+	r := reply{OK: true}
+	r.Cert, _ = a.Get("cert")
+	r.IAT, _ = a.Get("iat-mode")
+	if v := reflect.ValueOf(sf); v.Kind() == reflect.Ptr && v.Elem().Kind() == reflect.Struct {
+		if f := v.Elem().FieldByName("iatMode"); f.IsValid() && f.CanInt() {
+			r.InUse = fmt.Sprint(f.Int())
+		}
+	}
+	for k := range *a {
+		r.Keys = append(r.Keys, k)
+	}
+	sort.Strings(r.Keys)
+	return r
+}
+
 func main() {
 	if len(os.Args) != 2 {
 		out(reply{Err: "usage"})
@@ -113,32 +164,22 @@ func main() {
 	}
 	switch req.Cmd {
 	case "server":
-		args := pt.Args{}
-		keys := make([]string, 0, len(req.Args))
-		for k := range req.Args {
-			keys = append(keys, k)
-		}
-		sort.Strings(keys)
-		for _, k := range keys {
-			args.Add(k, req.Args[k])
-		}
-		sf, err := transports.Get("obfs4").ServerFactory(req.Dir, &args)
-		if err != nil {
-			out(reply{Err: err.Error()})
-		}
-		a := sf.Args()
+		out(serverStart(req.Dir, req.Args))
+	case "multi":
 		r := reply{OK: true}
-		r.Cert, _ = a.Get("cert")
-		r.IAT, _ = a.Get("iat-mode")
-		if v := reflect.ValueOf(sf); v.Kind() == reflect.Ptr && v.Elem().Kind() == reflect.Struct {
-			if f := v.Elem().FieldByName("iatMode"); f.IsValid() && f.CanInt() {
-				r.InUse = fmt.Sprint(f.Int())
+		for _, st := range req.Starts {
+			res := multiResult{Reply: serverStart(st.Dir, st.Args), Snap: map[string]string{}}
+			es, _ := os.ReadDir(st.Dir)
+			for _, e := range es {
+				if b, err := os.ReadFile(filepath.Join(st.Dir, e.Name())); err == nil && !e.IsDir() {
+					res.Snap[e.Name()] = hex.EncodeToString(b)
+					if len(b) == 0 {
+						res.Snap[e.Name()] = "-"
+					}
+				}
 			}
+			r.Multi = append(r.Multi, res)
 		}
-		for k := range *a {
-			r.Keys = append(r.Keys, k)
-		}
-		sort.Strings(r.Keys)
 		out(r)
 	case "tickets":
 		cf, err := transports.Get("scramblesuit").ClientFactory(req.Dir)
